@@ -14,6 +14,8 @@ inductive Stmt
   | setClosed          -- c.closed = true
   | deferCloseRead     -- defer c.closeRead()
   | closeReadNow       -- c.closeRead() as an ordinary statement
+  | unregister         -- c.handler.rmStream(sid) as an ordinary statement: from here on the
+                       -- handler does not find the stream and refuses its packets
   | flush              -- c.Flush() / c.flush(t)            (fallible: a data stanza may be refused)
   | encClose           -- c.closeFlushFunc()                 (fallible: emits the padded rest)
   | sendCloseIQ        -- c.s.SendIQElement(close)           (fallible: send failure, deadline)
@@ -31,10 +33,19 @@ structure CState where
   deferred : Bool := false        -- a deferred closeRead is registered
   failed : Bool := false          -- the routine returned an error
   closeSent : Bool := false       -- the close request went out
+  registered : Bool := true       -- the handler still finds the stream
+  upAtWaits : Bool := true        -- the receiving side was up at every step that waits for the peer
   deriving DecidableEq, Repr
 
 /-- run the deferred calls (at a return) -/
-def ret (s : CState) : CState := if s.deferred then { s with rxClosed := true } else s
+def ret (s : CState) : CState := if s.deferred then { s with rxClosed := true, registered := false } else s
+
+/-- statements during which the routine waits for the peer (acknowledgement of the flushed data,
+of the padded rest, the answer to the close request): the peer's packets that are still in
+flight — and whatever it flushes when it handles our close request — arrive at these points -/
+def Stmt.waits : Stmt → Bool
+  | .flush | .encClose | .sendCloseIQ | .closeResp => true
+  | _ => false
 
 /-- execute the program; `fault = some k`: the statement at position `k` fails (if it can) -/
 def exec (fault : Option Nat) : List Stmt → Nat → CState → CState
@@ -42,10 +53,12 @@ def exec (fault : Option Nat) : List Stmt → Nat → CState → CState
   | st :: rest, k, s =>
     if st.fallible && fault == some k then ret { s with failed := true }
     else
+      let s := if st.waits then { s with upAtWaits := s.upAtWaits && s.registered && !s.rxClosed } else s
       let s' := match st with
         | .setClosed => { s with closedFlag := true }
         | .deferCloseRead => { s with deferred := true }
-        | .closeReadNow => { s with rxClosed := true }
+        | .closeReadNow => { s with rxClosed := true, registered := false }
+        | .unregister => { s with registered := false }
         | .sendCloseIQ => { s with closeSent := true }
         | _ => s
       exec fault rest (k + 1) s'
@@ -55,6 +68,11 @@ def run (fault : Option Nat) (p : List Stmt) : CState := exec fault p 0 {}
 /-- the receiving side is taken down whatever happens: no fault, or a fault at any position -/
 def alwaysClosesRead (p : List Stmt) : Bool :=
   (run none p).rxClosed && (List.range p.length).all fun k => (run (some k) p).rxClosed
+
+/-- a Close that succeeds keeps receiving until the peer has answered the close request: at
+every step that waits for the peer the stream is still registered and its receiving side open -/
+def receivesWhileWaiting (p : List Stmt) : Bool :=
+  (run none p).upAtWaits && (run none p).closeSent
 
 /-- the routines as written in the repaired `ibb/conn.go` (used by the driver) -/
 def closeProgram : List Stmt :=
@@ -67,7 +85,8 @@ def parseStmt (s : String) : Option Stmt :=
   if s = "setClosed" then some .setClosed else if s = "deferCloseRead" then some .deferCloseRead
   else if s = "closeReadNow" then some .closeReadNow else if s = "flush" then some .flush
   else if s = "encClose" then some .encClose else if s = "sendCloseIQ" then some .sendCloseIQ
-  else if s = "closeResp" then some .closeResp else if s = "other" then some .other else none
+  else if s = "closeResp" then some .closeResp else if s = "other" then some .other
+  else if s = "unregister" then some .unregister else none
 
 def parseProgram : List String → Option (List Stmt)
   | [] => some []
